@@ -81,19 +81,25 @@ def probe(key, coq_name, what, repair):
     return deco
 
 
-@probe('v2-real-byte-order-not-dropped', 'w_real_byte_order',
-       'a barectf 2 floating point field type with a `byte-order` property (allowed by schemas/config/2/field-type.yaml, even when '
-       'equal to the trace byte order) is rejected: _conv_real_ft_node keeps `byte-order` and the barectf 3 schema refuses it, '
-       'while the barectf 3 twin loads',
-       'config_parse_v2.py _conv_real_ft_node: add `_del_prop_if_exists(v3_ft_node, \'byte-order\')` (as _conv_int_ft_node does)')
-def p_real_bo():
+# ------------------------------------------------------------------ regression inputs (former witnesses)
+# A deviation that was repaired in /repo: the document must now load and generate exactly what its twin
+# generates; if the bug returns the check reports a VIOLATION (never a known finding).
+REGRESSIONS = []
+
+
+def regression(name, coq_name, fixed_by):
+    def deco(f):
+        REGRESSIONS.append({'name': name, 'coq': coq_name, 'fixed_by': fixed_by, 'make': f})
+        return f
+    return deco
+
+
+@regression('v2-real-byte-order-not-dropped', 'w_real_byte_order',
+            '/repo 3990a98 (_conv_real_ft_node drops `byte-order`)')
+def r_real_bo():
     flt = OD([('class', 'float'), ('size', OD([('exp', 8), ('mant', 24)])), ('byte-order', 'le')])
     tree = base(payload=OD([('class', 'struct'), ('fields', OD([('x', flt)]))]))
-
-    def check(run, text):
-        r2, r3 = run(text), run(twin(x='{class: real, size: 32}'))
-        return (r2[0] == 'cfgerr' and r3[0] == 'ok'), {'v2_outcome': r2[0], 'v2_message': r2[1] if r2[0] != 'ok' else None, 'v3_twin_outcome': r3[0]}
-    return tree, twin(x='{class: real, size: 32}'), check
+    return tree, twin(x='{class: real, size: 32}')
 
 
 @probe('v2-struct-fields-null-or-absent-crash', 'w_fields_null',
@@ -223,8 +229,6 @@ def refuted_classes(tree):
         _fts(meta.get('streams'), allft)
         _fts(tr.get('packet-header-type'), allft)
         for n in allft:
-            if n.get('class') in ('flt', 'float', 'floating-point') and 'byte-order' in n:
-                out.add('v2-real-byte-order-not-dropped')
             if n.get('class') in ('struct', 'structure') and 'fields' in n and n['fields'] is None:
                 out.add('v2-struct-fields-null-or-absent-crash')
         ph = tr.get('packet-header-type')
@@ -252,3 +256,45 @@ def refuted_classes(tree):
     except (KeyError, TypeError, AttributeError):
         pass
     return out
+
+
+# ------------------------------------------------------------------ the non-vacuity example of Props/C18.v
+def example_tree():
+    """A barectf 2 document exercising every clause of valid_v2 (Definition ex_valid_doc in V2Proofs.v)."""
+    ts = lambda size: _int(size, signed=False, **{'property-mappings': _pm('sys')})   # noqa: E731
+    enum = OD([('class', 'enum'), ('value-type', _int(8, signed=True, align=8, base='hex')),
+               ('members', ['ZERO', OD([('label', 'TEN'), ('value', 10)]), 'ELEVEN',
+                            OD([('label', 'RNG'), ('value', [20, 29])]), 'THIRTY', OD([('label', 'ZERO'), ('value', -1)])])])
+    payload = OD([('class', 'struct'), ('min-align', 16), ('fields', OD([
+        ('e', enum),
+        ('f', OD([('class', 'floating-point'), ('size', OD([('exp', 11), ('mant', 53)])), ('align', 64)])),
+        ('s', OD([('class', 'string'), ('encoding', 'utf8')])),
+        ('a', OD([('class', 'array'), ('length', 2), ('element-type',
+                  OD([('class', 'array'), ('length', 3), ('element-type', _int(3))]))])),
+        ('d', OD([('class', 'array'), ('length', 'dynamic'), ('element-type', _int(16, align=16))]))]))])
+    s1 = OD([
+        ('packet-context-type', OD([('class', 'struct'), ('fields', OD([
+            ('timestamp_begin', ts(64)), ('packet_size', _int(32)), ('content_size', _int(32)),
+            ('my_extra', _int(5, signed=None)), ('timestamp_end', ts(64)), ('events_discarded', _int(16))]))])),
+        ('event-header-type', OD([('class', 'struct'), ('fields', OD([('timestamp', ts(32)), ('id', _int(8))]))])),
+        ('event-context-type', OD([('class', 'struct'), ('fields', OD([('cpu', _int(8))]))])),
+        ('events', OD([('ev1', OD([('log-level', 'WARN'), ('payload-type', payload)])),
+                       ('ev2', OD([('log-level', 3), ('context-type', OD([('class', 'struct'), ('fields', OD([('c', _int(1))]))])),
+                                   ('payload-type', None)]))]))])
+    s2 = OD([('$default', None),
+             ('packet-context-type', OD([('class', 'struct'), ('fields', OD([('packet_size', _int(16)), ('content_size', _int(16))]))])),
+             ('events', OD([('only', OD([('payload-type', OD([('class', 'struct'), ('fields', OD([('x', _int(64, signed=True))]))]))]))]))])
+    meta = OD([
+        ('$log-levels', OD([('WARN', 4)])),
+        ('env', OD([('host', 'h1'), ('n', 3)])),
+        ('clocks', OD([('sys', OD([('freq', 1000000), ('error-cycles', 2), ('offset', OD([('seconds', 5)])),
+                                   ('absolute', False), ('$return-ctype', 'unsigned long')])),
+                       ('other', OD([('description', 'unused'), ('return-ctype', None)]))])),
+        ('trace', OD([('byte-order', 'be'), ('uuid', '01234567-89ab-cdef-0123-456789abcdef'),
+                      ('packet-header-type', OD([('class', 'struct'), ('fields', OD([
+                          ('magic', _int(32)),
+                          ('uuid', OD([('class', 'array'), ('length', 16), ('element-type', _int(8))])),
+                          ('stream_id', _int(8))]))]))])),
+        ('$default-stream', 'second'),
+        ('streams', OD([('first', s1), ('second', s2)]))])
+    return OD([('version', '2.1'), ('prefix', 'my_tr__'), ('options', OD([('gen-prefix-def', True)])), ('metadata', meta)])
